@@ -31,22 +31,52 @@ def props_of(fntab, key):
     return out, contracted
 
 
+SKIP_CACHE = {}
+
+
 def verus_engine(prop, tier, scratch):
-    text, info = build_unit.build(cl.REPO)
-    unit = os.path.join(scratch, 'evx_unit.rs')
-    open(unit, 'w').write(text)
-    fntab = cl.fn_table(text)
-    rlimit = 60 if tier == 'thorough' else 30
-    r = cl.run_verus(unit, rlimit=rlimit)
-    vj = r['json']
-    if vj is None:
-        raise Undecided('verus produced no JSON (rc=%s): %s' % (r['rc'], r['stderr'][-400:].replace('\n', ' ')))
-    vr = vj.get('verification-results', {})
-    cls = [cl.classify_diag(d, fntab) for d in r['diags']]
-    cls = [c for c in cls if c]
-    if vr.get('encountered-vir-error') or (vr.get('verified', 0) + vr.get('errors', 0) == 0):
+    # A function that left the verifiable subset on this tree (unsupported construct, proof text that no longer
+    # type-checks) is isolated: its contract is kept as an assumption for its callers, every property tagged on it
+    # becomes UNDECIDED, the other properties are still decided.
+    skip = set(SKIP_CACHE.get(cl.REPO, ()))
+    isolated = {}
+    for attempt in range(4):
+        text, info = build_unit.build(cl.REPO, skip=frozenset(skip))
+        unit = os.path.join(scratch, 'evx_unit.rs')
+        open(unit, 'w').write(text)
+        fntab = cl.fn_table(text, keep_external=True)
+        rlimit = 60 if tier == 'thorough' else 30
+        r = cl.run_verus(unit, rlimit=rlimit)
+        vj = r['json']
+        if vj is None:
+            raise Undecided('verus produced no JSON (rc=%s): %s' % (r['rc'], r['stderr'][-400:].replace('\n', ' ')))
+        vr = vj.get('verification-results', {})
+        cls = [cl.classify_diag(d, fntab) for d in r['diags']]
+        cls = [c for c in cls if c]
+        if not (vr.get('encountered-vir-error') or (vr.get('verified', 0) + vr.get('errors', 0) == 0)):
+            break
         msgs = '; '.join(c['msg'] for c in cls[:3]) or r['stderr'][-300:].replace('\n', ' ')
-        raise Undecided('unit rejected before verification (unsupported construct / compile error): %s' % msgs[:500])
+        offenders = set()
+        for c in cls:
+            if c['fn'] and not c['fn'][0].startswith('vs'):
+                offenders.add(c['fn'][1])
+                isolated[c['fn'][1]] = c['msg'][:200]
+        contracted = {name for (ln, mod, name, props, ex) in fntab if props is not None}
+        new = (offenders & contracted) - skip
+        if not new:
+            raise Undecided('unit rejected before verification (unsupported construct / compile error): %s' % msgs[:500])
+        skip |= new
+    else:
+        raise Undecided('unit still rejected after isolating %s' % sorted(skip))
+    SKIP_CACHE[cl.REPO] = set(skip)
+    if skip:
+        affected = set()
+        for (ln, mod, name, props, ex) in fntab:
+            if name in skip and props:
+                affected.update(props)
+        if prop in affected or prop == 'C01':
+            raise Undecided('function(s) %s left the verifiable subset on this tree (%s)' % (sorted(skip), '; '.join('%s: %s' % kv for kv in sorted(isolated.items()))[:400]))
+    fntab = cl.fn_table(text)
     led = cl.ledger_from(vj, 'evx_unit')
     # ---- obligations of this property: every contracted fn tagged with it (C01: every verified exec fn)
     obligations = []
@@ -96,12 +126,12 @@ def verus_engine(prop, tier, scratch):
         if c['fn'] in expected or c['fn'] is None:
             raise Undecided('%s in %s: %s' % (c['kind'], c['fn'], c['msg'][:200]))
     return {'unit': unit, 'text': text, 'info': info, 'fntab': fntab, 'run': r, 'ledger': led, 'obligations': obligations,
-            'failures': failures, 'trusted': cl.trusted_scan(text), 'cmd': r['cmd']}
+            'failures': failures, 'trusted': cl.trusted_scan(text) + ['AUTO-ISOLATED (contract assumed, outside the verifiable subset on this tree): ' + n for n in sorted(skip)], 'cmd': r['cmd']}
 
 
 def canary(prop, scratch, names):
     """vacuity guard: with `assert(false)` at the head of each contracted body, each must FAIL"""
-    text, info = build_unit.build(cl.REPO, canary=True)
+    text, info = build_unit.build(cl.REPO, canary=True, skip=frozenset(SKIP_CACHE.get(cl.REPO, ())))
     unit = os.path.join(scratch, 'evx_canary.rs')
     open(unit, 'w').write(text)
     r = cl.run_verus(unit, rlimit=10)
